@@ -1429,6 +1429,16 @@ def normal(obj, params, **kwargs):
             return ops.normal_surface_single_list(obj, params, normalize)
 
 
+def _reset_container(geom):
+    """ Resets the caches of a geometry container after its elements are updated.
+
+    :param geom: input geometry
+    :type geom: abstract.SplineGeometry or multi.AbstractContainer
+    """
+    if not isinstance(geom, abstract.SplineGeometry) and callable(getattr(geom, 'reset', None)):
+        geom.reset()
+
+
 @export
 def translate(obj, vec, **kwargs):
     """ Translates curves, surface or volumes by the input vector.
@@ -1465,6 +1475,7 @@ def translate(obj, vec, **kwargs):
             temp = [v + vec[i] for i, v in enumerate(pt)]
             new_ctrlpts.append(temp)
         g.ctrlpts = new_ctrlpts
+    _reset_container(geom)
 
     return geom
 
@@ -1562,6 +1573,7 @@ def rotate(obj, angle, **kwargs):
     # Start rotation
     for g in geom:
         rotfunc[axis](g, origin, angle)
+    _reset_container(geom)
 
     return geom
 
@@ -1597,6 +1609,7 @@ def scale(obj, multiplier, **kwargs):
         for idx, pts in enumerate(g.ctrlpts):
             new_ctrlpts[idx] = [p * float(multiplier) for p in pts]
         g.ctrlpts = new_ctrlpts
+    _reset_container(geom)
 
     return geom
 
